@@ -26,6 +26,9 @@ CHECKS["C18"] = dict(engine="enum", technique="bounded-exhaustive enumeration of
 CHECKS["C09"] = dict(engine="govm", level="fault_enumeration", technique="fault enumeration + stateless model checking: every scripted peer behaviour x deadline source x caller count, each under all schedules within the deviation bound, on the real client call path with virtual time",
              text="Peer behaviours (answers, silent, late, closes at three points, garbage length, garbage body, refuses, black-holed dial, zero send window) x deadline source (configured, per-call, context) x 1-4 callers; every call must return by deadline (+ dial bound + one wheel tick) on the virtual clock, and after 3 s of quiescence the pending-reply table, queue counters and delivery goroutines must be gone.",
              note="Exact virtual-time oracle; schedules: default + <=1 deviation from three default policies (2 with pruning in thorough).", ref="§5 C09")
+CHECKS["C11"] = dict(engine="govm", technique="stateless model checking: close point x delay menu x deviation-bounded exhaustive schedules (3 default policies) of the real client transport against a scripted closing server, virtual time",
+             text="Scripted server answers everything and closes (FIN / reconnect notice + FIN / RST) after response 1 or 2; the next call(s) are issued 1/999/1000/1001/1500 ms after the close, sequentially or from two callers; all schedules within 1 deviation (2 with pruning in thorough) from three default policies. Post-close calls must succeed, nothing may be written to a connection whose receiver saw EOF, the newest healthy connection must not be flagged closed, nothing may be stranded in the send queues.",
+             note="Calls at the very instant of the close are out of the property's scope and not judged; vnet log supplies 'who wrote what when'.", ref="§5 C11")
 NOT_YET = {}
 ALL = ["C%02d" % i for i in range(1, 21)]
 
